@@ -8,6 +8,7 @@
    (input, output, iv never alias), as in the library's documented use.
    Definitions only. *)
 From MV Require Export C12.Spec_AES C12.Spec_DES.
+From Coq Require Import ZArith.
 Local Open Scope N_scope.
 
 (* MUGGLE_OK / MUGGLE_ERR_NULL_PARAM / MUGGLE_ERR_INVALID_PARAM / MUGGLE_ERR_CRYPT_KEY_SIZE *)
@@ -179,6 +180,26 @@ Definition aes_set_key (pkey pctx : bool) (o : op) (m : mode) (bits : N) (key : 
   match first_err [(op_valid o, E_INVALID); (mode_valid m, E_INVALID); (pkey, E_NULL); (pctx, E_NULL)] with
   | OK => match aes_round_keys bits key with
           | Some rk => (OK, Some {| a_op := o; a_mode := m; a_rk := rk |})
+          | None => (E_KEYSIZE, None)
+          end
+  | e => (e, None)
+  end.
+
+(* The key size is a C int: muggle_aes_set_key(op, mode, key, int bits, ctx) hands it unchanged to
+   muggle_openssl_aes_set_key, whose chain
+     if (bits == 128) rounds = 10; else if (bits == 192) rounds = 12; else if (bits == 256) rounds = 14;
+     else return MUGGLE_ERR_CRYPT_KEY_SIZE;
+   compares the int itself (no division, no narrowing), so no negative, odd or large value is taken for a key
+   size; the key schedule (rounds + 1 round keys from bits / 32 key words) is built only behind it. *)
+Definition aes_rounds_of_bits (bits : Z) : option Z :=
+  if (bits =? 128)%Z then Some 10%Z
+  else if (bits =? 192)%Z then Some 12%Z
+  else if (bits =? 256)%Z then Some 14%Z
+  else None.
+Definition aes_set_key_int (pkey pctx : bool) (o : op) (m : mode) (bits : Z) (key : list N) : err * option aes_ctx :=
+  match first_err [(op_valid o, E_INVALID); (mode_valid m, E_INVALID); (pkey, E_NULL); (pctx, E_NULL)] with
+  | OK => match aes_rounds_of_bits bits with
+          | Some _ => aes_set_key pkey pctx o m (Z.to_N bits) key
           | None => (E_KEYSIZE, None)
           end
   | e => (e, None)
